@@ -10,8 +10,8 @@ Base(s) == CASE s = "v1" -> {"t1", "t2"} [] s = "v2" -> {"t2", "t3"} [] OTHER ->
 MCDen == [c \in MCSvc \X MCMan |-> IF c[2] = "m1" THEN (Base(c[1]) \ {"t2"}) \cup {"tm"} ELSE Base(c[1])]
 \* custom backend: one channel; j1 = two targets (the first with tags and options), j2 = two targets without,
 \* jempty = valid empty list, jbadjson / jinvalid / j500 = undecodable body, invalid command, HTTP 500
-MCSvcC == {"s0", "j1", "j2", "jempty", "jbadjson", "jinvalid", "j500"}
+MCSvcC == {"s0", "j1", "j2", "jempty", "jbadjson", "jinvalid", "j500", "jnosrc", "jdelnosrc"}
 MCManC == {"m0"}
-MCBadC == {"jbadjson", "jinvalid", "j500"}
-MCDenC == [c \in MCSvcC \X MCManC |-> CASE c[1] = "j1" -> {"t1|x,y|strip=/a", "t2"} [] c[1] = "j2" -> {"t2", "t3"} [] OTHER -> {}]
+MCBadC == {"jbadjson", "jinvalid", "j500", "jnosrc"}   \* jnosrc: route add without a source
+MCDenC == [c \in MCSvcC \X MCManC |-> CASE c[1] = "j1" -> {"t1|x,y|strip=/a", "t2"} [] c[1] \in {"j2", "jdelnosrc"} -> {"t2", "t3"} [] OTHER -> {}]   \* jdelnosrc = j2 + two del commands without source that select nothing
 =============================================================================
